@@ -29,7 +29,7 @@ theorem nsInit_inv {s : Stream} {cls : StreamClass} {o : SerOptions} (hs : Strea
   rw [henc]
   simp only [initState, wireOptions, hopts]
   exact ⟨⟨Lookup.WF.new _, Lookup.WF.new _, Lookup.WF.new _, rfl, rfl, rfl, fun _ => rfl⟩,
-    ⟨EMirror.new _, EMirror.new _, EMirror.new _⟩, rfl, rfl, rfl, rfl, rfl, rfl, rfl⟩
+    ⟨EMirror.new _, EMirror.new _, EMirror.new _⟩, rfl, rfl, rfl, rfl, rfl, rfl, rfl, rfl⟩
 
 theorem options_step_ver {s : Stream} {cls : StreamClass} {o : SerOptions} (hs : Stream.new cls o = .ok s)
     (hl : validLogical s.logicalType = true) :
